@@ -53,7 +53,17 @@ def check_merge_values(prop: str, res: Result, repo: Repo):
             continue
         for fld, w in want.items():
             got = final_attr(p.state, "self", fld)
-            if _same(got, w):
+            same = _same(got, w)
+            if not same and isinstance(got, Num):
+                # equal under the conditions of this path (`if c.high > self.high: self.high = c.high` is max(self.high, c.high))
+                from .facts import prove_ge0
+
+                try:
+                    fs = tuple(p.state.facts)
+                    same = prove_ge0(got.f - w, fs) and prove_ge0(w - got.f, fs)
+                except Exception:
+                    same = False
+            if same:
                 res.ok(rule, {"site": m.where, "field": fld, "post-state": repr(w)}, nontrivial=f"merge:{fld}")
             else:
                 res.fail(rule, finding(prop, rule, m, m.node, f"after merge, {fld} is {got!r}; resampling requires {w!r} (open kept, max high, min low, summed volume, last close, label untouched)", construct=f"merge: {fld} = {got!r}"[:190]))
